@@ -9,7 +9,10 @@
    The model reuses the constraint lists of Yajilin.v (yajilin_not_adjacent, yajilin_cells: written with the plain
    route's ids) and moves every id from yj_base = N+3P on down by 2P (CyclePrimCompose2.shift_expr); the capture tie
    (kind program-native:yajilin) compares the result with the program of the real solve_yajilin on that route.
-   Same input domain and error behaviour as solve_yajilin_model.
+   Same input domain as solve_yajilin_model.  Error behaviour: as on the plain route, except that the 0 x 0 board is
+   NOT rejected on this route - without the rank array (int_array(.., 0, -1) raises ValueError on the plain route)
+   nothing raises, the frame and the cell grid are empty and the program consists of the native node on the empty
+   graph alone (yj_empty_prim); every other board with height < 1 or width < 1 still raises ValueError.
 
    yajilin_exact_prim: same statement as YajilinProofs.yajilin_exact for this program (answer keys: the frame and the
    black cells at their new ids), from CyclePrimCompose2.cycle_grid_compose_prim and the local lemmas of
@@ -26,9 +29,13 @@ Local Open Scope nat_scope.
 (* the ids of the variables declared after the single-cycle call: 2 * H * W lower than on the plain route *)
 Definition yj_shift (H W : nat) : expr -> expr := shift_expr (yj_base H W) (H * W + H * W).
 
+(* the program of the 0 x 0 board: no variable, Op.GRAPH_ACTIVE_VERTICES_CONNECTED on the empty graph *)
+Definition yj_empty_prim : state := {| vars := []; keys := []; cons := [BNode G_AVC [PyInt 0; PyInt 0]] |}.
+
 Definition solve_yajilin_model_prim (pb : problem) : res state :=
   let H := dim pb 0 in let W := dim pb 1 in
-  if ((getz (sec pb 0) 0 <? 1) || (getz (sec pb 0) 1 <? 1))%Z then Err ValueError
+  if ((getz (sec pb 0) 0 =? 0) && (getz (sec pb 0) 1 =? 0))%Z then Ok yj_empty_prim
+  else if ((getz (sec pb 0) 0 <? 1) || (getz (sec pb 0) 1 <? 1))%Z then Err ValueError
   else
   let h := H - 1 in let w := W - 1 in
   let '(sa, hor) := bool_array empty_state (S h * w) in
@@ -81,6 +88,8 @@ Proof.
   change (getz [Z.of_nat (S h); Z.of_nat (S w)] 0) with (Z.of_nat (S h)).
   change (getz [Z.of_nat (S h); Z.of_nat (S w)] 1) with (Z.of_nat (S w)).
   destruct (yj_dims (S h) (S w) [kind; num]) as [-> ->].
+  replace ((Z.of_nat (S h) =? 0) && (Z.of_nat (S w) =? 0))%Z with false
+    by (symmetry; apply andb_false_iff; left; apply Z.eqb_neq; lia).
   replace ((Z.of_nat (S h) <? 1) || (Z.of_nat (S w) <? 1))%Z with false
     by (symmetry; apply orb_false_iff; split; apply Z.ltb_ge; lia).
   replace (S h - 1) with h by lia. replace (S w - 1) with w by lia.
@@ -148,10 +157,19 @@ Theorem yajilin_exact_prim H W kind num st ans :
                reads st en (seq 0 (n_lattice_edges H W) ++ seq (n_lattice_edges H W + H * W) (H * W)) = ans)
    <-> rules_yajilin [[Z.of_nat H; Z.of_nat W]; kind; num] ans = true).
 Proof.
-  destruct H as [|h]; [intros Hm; discriminate Hm|].
+  destruct H as [|h].
+  { destruct W as [|w]; [|intros Hm; discriminate Hm].
+    (* the 0 x 0 board: the only reading is the empty one, and it obeys the rules *)
+    intros Hm. change (Ok yj_empty_prim = Ok st) in Hm. inversion Hm; subst st. clear Hm.
+    rewrite rules_yajilin_split. split.
+    - intros [en [_ Hr]]. simpl in Hr. subst ans. reflexivity.
+    - intros Hr. destruct ans as [|a r]; [|discriminate Hr].
+      exists {| eb := fun _ => false; ei := fun _ => 0%Z |}. split; [split; reflexivity|reflexivity]. }
   destruct W as [|w].
   { intros Hm. unfold solve_yajilin_model_prim in Hm.
     change (getz (sec [[Z.of_nat (S h); Z.of_nat 0]; kind; num] 0) 1) with 0%Z in Hm.
+    change (getz (sec [[Z.of_nat (S h); Z.of_nat 0]; kind; num] 0) 0) with (Z.of_nat (S h)) in Hm.
+    replace (Z.of_nat (S h) =? 0)%Z with false in Hm by (symmetry; apply Z.eqb_neq; lia).
     change (0 <? 1)%Z with true in Hm. rewrite orb_true_r in Hm. discriminate Hm. }
   intros Hm. destruct (yajilin_model_prim_shape h w kind num st Hm) as [st0 [st1 [res [Hv0 [Hc0 [Hcall [Hv Hc]]]]]]].
   destruct (cycle_grid_compose_prim h w (S h * S w) st0 st1 st res _ Hv0 Hc0 Hcall Hv Hc
